@@ -27,7 +27,7 @@ Qed.
 
 (* the only way to a durable effect: BEGIN, the closure and COMMIT all succeeded, under a live context *)
 Theorem do_tx_durable_only_if r :
-  snd (do_tx r) = true -> begin_fault r = false /\ inner r = IOk /\ commit_fault r = false.
+  snd (do_tx r) = true -> begin_fault r = false /\ (inner r = IOk \/ inner r = IOkCancelAfter) /\ commit_fault r = false.
 Proof.
   unfold do_tx. destruct r as [bf i cf rf]. cbn [begin_fault inner commit_fault rollback_fault].
   destruct bf; [discriminate|]. destruct i; cbn [run_inner]; destruct cf; cbn; intros H; try discriminate; auto.
